@@ -149,6 +149,29 @@ pub fn wait_fg_job(sh: &mut shell::Shell, gid: i32, pids: &[i32]) -> CommandResu
     }
     let pid_last = pids.last().unwrap();
 
+    // a member may have terminated already and been reaped by the SIGCHLD
+    // handler (e.g. before `fg`): its parked status is all we will ever
+    // hear of it, the kernel has nothing left to report for that pid.
+    for pid in pids {
+        let parked = if let Some(status) = signals::pop_reap_map(*pid) {
+            Some((status, "Done"))
+        } else {
+            signals::killed_map_pop(*pid).map(|sig| (128 + sig, "Killed"))
+        };
+        if let Some((status, reason)) = parked {
+            signals::pop_stopped_map(*pid);
+            signals::pop_cont_map(*pid);
+            mark_job_as_done(sh, gid, *pid, reason);
+            waited.insert(*pid);
+            if pid == pid_last {
+                cmd_result.status = status;
+            }
+        }
+    }
+    if waited.len() >= count_child {
+        return cmd_result;
+    }
+
     loop {
         let ws = waitpidx(-1, true);
         // here when we calling waitpidx(), all signals should have
